@@ -669,7 +669,8 @@ def run(ctx, res):
         rule_png(ctx, res, sizes)
     except AnalysisError as e:
         res.undecided('R-C16-png', 'rule_png', 'analysis', str(e))
-    from .c05 import rule_format
-    rule_format(ctx, res, rule_id='R-C16-stream')
+    from .c05 import rule_format, rule_literals
+    lit = rule_literals(ctx, res, rule_id='R-C16-stream')
+    rule_format(ctx, res, rule_id='R-C16-stream', literals_decided=bool(lit))
     res.require_min('R-C16-sfx', 10)
     res.require_min('R-C16-png', 7)
